@@ -138,9 +138,9 @@ func poolConfigs(prop string, thorough bool) (cfgs []poolCfg, depth int) {
 			add(r)
 		}
 	case "C05", "C06":
-		depth = 5
+		depth = 4
 		if thorough {
-			depth = 7
+			depth = 6
 		}
 		base := alphabet{Resolve: []string{"a2", "empty"}, ResErr: true, States: "basic", Shutdown: true, Unknown: true,
 			Cmds: []string{"plain", "bind", "bound", "unbind", "badloc"}, Keys: []string{"k1"}, Gens: []string{"L", "P", "O"},
@@ -190,6 +190,14 @@ func poolConfigs(prop string, thorough bool) (cfgs []poolCfg, depth int) {
 				c.A = alphabet{States: "basic", Cmds: []string{"plain"}, Gens: []string{"L"}, Ctx: []string{"g,d1", "g"},
 					Done: []string{"ok", "err", "cde", "sde"}, Adv: []int{1, 2}, Fail: true, MaxOpen: 3, MaxSC: int(n) + 2}
 				add(c)
+				if m[0] == 1 && m[1] >= 1 {
+					// non-initial root: a refresh of channel 0 in flight, replacement connecting
+					r := c
+					r.Name += " root=refreshing"
+					r.Setup = append(append([]string{}, c.Setup...), "pick(plain,,L,g,d1)", fmt.Sprintf("adv(%d)", m[1]+1), "done(0,cde)", fmt.Sprintf("state(%d,CONNECTING)", n))
+					r.A.MaxSC = int(n) + 3
+					add(r)
+				}
 			}
 		}
 	case "C08":
